@@ -292,6 +292,69 @@ def run(ctx):
         else:
             r_ext.discharged += 1
 
+    # ---------------- FLAG: `sorted` licenses the fast paths of leftmost()/rightmost(); it must be true only of ordered data
+    r_flag = ctx.rule("C13.FLAG", "TextSelectionSet.sorted is true only while data is in order: data is written by add() (ordered insertion under the flag) and sort() (sets the flag) only, and add() keeps a sorted set sorted and duplicate-free")
+    import mirq
+    from effects import field_effects
+    prog = mirq.Program(ctx.facts.mir())
+    eff = field_effects(prog)
+    WRITERS = {"data": {"textselection::TextSelectionSet::add": "ordered insertion when the flag is set, append otherwise",
+                        "textselection::TextSelectionSet::sort": "sorts and then sets the flag"},
+               "sorted": {"textselection::TextSelectionSet::sort": "sets the flag after sorting"}}
+    nw = 0
+    for fld, allowed in sorted(WRITERS.items()):
+        for bid, line in sorted(eff.get(("textselection::TextSelectionSet", fld), {}).items()):
+            nw += 1
+            r_flag.hit("%s<-%s" % (fld, bid), sample={"field": fld, "writer": bid})
+            if bid not in allowed and not prog.bodies[bid].d.get("derived"):
+                ctx.report(r_flag, "%s<-%s" % (fld, bid), "%s writes TextSelectionSet.%s directly; only %s may (a sorted set that is appended to keeps sorted=true over unordered data, and leftmost()/begin() answer from data[0])" % (bid, fld, sorted(allowed)), prog.bodies[bid].file, line)
+    ctx.floor(r_flag, nw, 3, "writers of TextSelectionSet.data / .sorted")
+    addf = syn.fn("add", self_ty="TextSelectionSet")
+    ctx.functions_analysed.add(addf.qual)
+
+    def bsearch(ev, recv, args, node, env):
+        if not isinstance(recv, list):
+            return NotImplemented
+        from formula import ok, err
+        x = args[0]
+        key = lambda t: (t["begin"], t["end"])
+        lo, hi = 0, len(recv)
+        while lo < hi:
+            mid = (lo + hi) // 2
+            if key(recv[mid]) == key(x):
+                return ok(mid)
+            if key(recv[mid]) < key(x):
+                lo = mid + 1
+            else:
+                hi = mid
+        return err(lo)
+    ah = {"binary_search": bsearch,
+          "insert": lambda ev, recv, args, node, env: (recv.insert(args[0], args[1]) or ()) if isinstance(recv, list) else NotImplemented,
+          "push": lambda ev, recv, args, node, env: (recv.append(args[0]) or ()) if isinstance(recv, list) else NotImplemented}
+    n_add = 0
+    badadd = None
+    try:
+        for k in (0, 1, 2):
+            for combo in itertools.product(small_iv, repeat=k):
+                for x in small_iv:
+                    for flag in (True, False):
+                        if flag and list(combo) != sorted(set(combo)):
+                            continue
+                        st = StructVal("TextSelectionSet", {"data": [model.interval(*c) for c in combo], "sorted": flag})
+                        Evaluator(hooks=ah).run_body(addf.body, {"self": st, "textselection": model.interval(*x)})
+                        got = [(t["begin"], t["end"]) for t in st["data"]]
+                        n_add += 1
+                        if st["sorted"] is True and got != sorted(set(got)) and badadd is None:
+                            badadd = "add(%s) to the sorted set %s leaves %s with sorted=true" % (x, list(combo), got)
+                        if x not in got and badadd is None:
+                            badadd = "add(%s) to %s leaves %s: the item is missing" % (x, list(combo), got)
+        r_flag.hit("add", sample={"sets_evaluated": n_add})
+        if badadd:
+            ctx.report(r_flag, "add", "TextSelectionSet::" + badadd, addf.file, addf.line)
+    except (Unknown, Panic) as ex:
+        ctx.report(r_flag, "uninterpretable:add", "TextSelectionSet::add is outside the evaluator's vocabulary (%s): obligation not discharged" % ex, addf.file, addf.line)
+    ctx.floor(r_flag, n_add, 100, "add() evaluations")
+
     # ---------------- pattern coverage of the four matches
     for fn in (model.f_test, model.f_test_set, model.f_set_test, model.f_set_test_set):
         for op in model.opvalues((None, 1)):
